@@ -233,7 +233,25 @@ def run(rep, tier, seed, proof_ok):
                 "before, no blob for the failing or a waiting function, not left inside an evaluation on the calling thread nor on the "
                 "threads of the surviving pool, failure not cached, completed steps reused, the later evaluations return, commit and execute "
                 "what the control history does minus the completed steps; non-trivial = a keep is reached on another thread before the "
-                "failure or for the failing function itself")
+                "failure or for the failing function itself"
+                "; handled-failure dimension (c10_handled.py): the failure is dealt with by the USER code inside the evaluation - generated "
+                "pipelines whose kept function fails its first 1 / 2 calls (transient, cause outside the code dds sees) or every call x the "
+                "handler around the request (retry loop of 2 / 3 attempts giving up with a default or re-raising the last exception, retry "
+                "helper of a non-accepted module, try / except default, contextlib.suppress, fallback to another kept function, asking again "
+                "inside the except block, guarded first call site + unguarded second call site of the same path, try / finally control, two "
+                "worker threads asking at the same time: the second arrives while the first is inside the failing function) x the handler "
+                "in the evaluated function / a plain function / a kept function x every request from the caller / threading.Thread / a "
+                "pool x dds.keep at the call site / keeper function / @data_function x the exception classes caught exactly or through a "
+                "base class x the failing function waiting for a kept sub-step that completed x kept siblings before / after x kept root x "
+                "stores (local, local+lru, memory) x calling thread; history: loads, evaluation, loads, (cause armed again,) the same "
+                "evaluation again, another kept function on its own, cause removed, evaluation twice, loads; checked against the execution "
+                "of the same files without the library (keep = call, a result that completed is reused, a failure never is - not even within "
+                "the evaluation -, paths loadable once their evaluation returned): same value (never None) / same exception object out of "
+                "dds.eval, same execution log including what every handler caught (class and identity of the object the function raised) - "
+                "i.e. every later request really calls the function again -, same values stored as blobs in the same order, nothing stored for a "
+                "function that did not complete, no commit and no change of the data directory when the handler gives up, dds.load of every "
+                "path as the reference, dds not left inside an evaluation; non-trivial = a handler caught the failure or the function was "
+                "requested again in the same evaluation")
     plans = [plan(seed * 1000 + i, tier) for i in range(n)]
     jobs = [(pl, cfg) for pl in plans for cfg in [None] + pl["configs"]]
     with cf.ThreadPoolExecutor(max_workers=C.NPROC) as ex:
@@ -268,6 +286,8 @@ def run(rep, tier, seed, proof_ok):
     rep.extra["input_distribution"] = {"histories": len(plans), "exception_classes": kinds, "configurations": dims}
     import c10_threads
     rep.extra["input_distribution"]["threads"] = c10_threads.run(rep, tier, seed, proof_ok)
+    import c10_handled
+    rep.extra["input_distribution"]["handled_failures"] = c10_handled.run(rep, tier, seed, proof_ok)
 
 
 class _Echo:
@@ -304,6 +324,9 @@ def replay(path):
     if "tplan" in r:
         import c10_threads
         return c10_threads.replay(r)
+    if "hplan" in r:
+        import c10_handled
+        return c10_handled.replay(r)
     if "victim" not in r:
         import c01
         return c01.replay(path)
